@@ -44,6 +44,9 @@ use verif_harness::prng::Rng;
 
 type T = u8;
 
+/// C14 runs: no retain predicates that overwrite kept values (finding F4 is C13's business)
+static PURE_RETAIN: std::sync::atomic::AtomicBool = std::sync::atomic::AtomicBool::new(false);
+
 // ------------------------------------------------------------------------------------------------
 // text helpers
 // ------------------------------------------------------------------------------------------------
@@ -675,7 +678,7 @@ impl Coll for CMap {
             23..=34 => {
                 // retain: per key decision (written value or '-', keep flag); mutation of a kept value is
                 // finding F4 and is generated in a minority of the retains only
-                let mutating = r.chance(1, 4);
+                let mutating = r.chance(1, 4) && !PURE_RETAIN.load(std::sync::atomic::Ordering::Relaxed);
                 let density = r.below(4);
                 let mut ds: Vec<String> = Vec::new();
                 for kk in 0..7u8 {
@@ -1524,6 +1527,374 @@ fn run_case_c13(coll: &str, id: &str, script: &[String], r: &mut Rng, st: &mut S
     out
 }
 
+// ------------------------------------------------------------------------------------------------
+// C14 scenarios: lagging subscribers, collection dropped before done(), size limits, connection cut
+// ------------------------------------------------------------------------------------------------
+
+/// Script lines (after `init`):
+///   `sub <snap|incr> <local|remote> <hand|mirror> buf=<n> max=<n>`
+///   `op <text>` / `done` / `gen <n>`      one call, then settle
+///   `b <text>` / `bdone` / `bgen <n>`     calls without settling in between (a burst)
+///   `read <sid> <n>`                      up to n `recv()` of a hand subscription
+///   `borrow <sid>`                        `borrow()` of a mirror
+///   `drop`                                drop the collection (without `done()` unless called before)
+///   `cut`                                 cut the connection
+/// Extra trace lines: `dropped`, `cutdone`, `borrow <sid> <contents> complete=<b> done=<b> err=<-|e>`,
+/// `final <sid> <contents>` (`detach()`).
+async fn run_c14<C: Coll>(id: &str, script: &[String], r: &mut Rng, st: &mut Stats, out: &mut String) {
+    let _ = writeln!(out, "case {id} {} c14", C::NAME);
+    let mut coll: Option<C> = None;
+    let mut probe: Option<C::Sub> = None;
+    let mut link: Option<Link<C::Sub>> = None;
+    let mut holders: Vec<(usize, Holder<C>)> = Vec::new();
+    let mut sid = 0usize;
+    let mut dirty = false;
+    let mut queue: std::collections::VecDeque<String> = script.iter().cloned().collect();
+
+    // settle, then report what the probe saw and the real contents
+    async fn sync<C: Coll>(coll: &Option<C>, probe: &mut Option<C::Sub>, st: &mut Stats, out: &mut String) {
+        settle().await;
+        if let Some(p) = probe.as_mut() {
+            let mut n = 0;
+            loop {
+                let e = recv_or_pending::<C>(p).await;
+                if e == "pending" || e == "eof" {
+                    break;
+                }
+                if e.starts_with("err:") {
+                    let _ = writeln!(out, "probe {e}");
+                    *probe = None;
+                    break;
+                }
+                n += 1;
+                let _ = writeln!(out, "ev {e}");
+            }
+            st.add("events", n);
+        }
+        if let Some(c) = coll.as_ref() {
+            let _ = writeln!(out, "state {} {}", c.contents().await, c.is_done() as u8);
+        }
+    }
+
+    while let Some(line) = queue.pop_front() {
+        let (cmd, rest) = line.split_once(' ').unwrap_or((line.as_str(), ""));
+        if dirty && !matches!(cmd, "b" | "bdone" | "bgen") {
+            sync::<C>(&coll, &mut probe, st, out).await;
+            dirty = false;
+        }
+        // echo the script (with generated operations expanded) so that a case can be replayed
+        if !matches!(cmd, "gen" | "bgen" | "op" | "b") {
+            let _ = writeln!(out, "cmd {line}");
+        }
+        match cmd {
+            "init" => {
+                let c = C::from_init(rest);
+                let _ = writeln!(out, "init {rest}");
+                let mut p = c.subscribe(false, 1_000_000);
+                C::take_initial(&mut p);
+                if C::ONLY_INCR {
+                    settle().await;
+                    loop {
+                        let e = recv_or_pending::<C>(&mut p).await;
+                        if e == "pending" || e == "eof" || e.starts_with("err:") {
+                            break;
+                        }
+                    }
+                }
+                probe = Some(p);
+                coll = Some(c);
+            }
+            "sub" => {
+                let Some(c) = coll.as_ref() else { continue };
+                let w: Vec<&str> = rest.split(' ').collect();
+                let incr = w[0] == "incr" || C::ONLY_INCR;
+                let remote = w[1] == "remote";
+                let is_mirror = w[2] == "mirror";
+                let opt = |k: &str, d: usize| -> usize {
+                    w.iter().find_map(|t| t.strip_prefix(k)).map(|v| v.parse().unwrap()).unwrap_or(d)
+                };
+                let buf = opt("buf=", 1_000_000);
+                let max = opt("max=", 1_000_000);
+                let mut sub = c.subscribe(incr, buf);
+                if remote {
+                    if link.is_none() {
+                        link = Some(Link::new().await);
+                    }
+                    sub = link.as_mut().unwrap().transfer(sub).await;
+                }
+                let _ = writeln!(
+                    out,
+                    "sub {sid} {} {} {} buf={buf} max={max}",
+                    if incr { "incr" } else { "snap" },
+                    if remote { "remote" } else { "local" },
+                    if is_mirror { "mirror" } else { "hand" }
+                );
+                st.hit(&format!("c14_sub_{}_{}_{}", if incr { "incr" } else { "snap" }, w[1], w[2]));
+                st.hit(&format!("c14_buf_{}", buf.min(9)));
+                if is_mirror {
+                    st.hit(&format!("c14_max_{}", max.min(99)));
+                    holders.push((sid, Holder::Mirror(C::mirror(sub, max))));
+                } else {
+                    let mut sub = sub;
+                    if !incr {
+                        let init = C::take_initial(&mut sub).unwrap_or_else(|| "?".into());
+                        let _ = writeln!(out, "initial {sid} {init}");
+                    }
+                    holders.push((sid, Holder::Hand(sub, incr)));
+                }
+                sid += 1;
+            }
+            "gen" | "bgen" => {
+                if let Some(c) = coll.as_ref() {
+                    let n: usize = rest.parse().unwrap();
+                    if n > 0 {
+                        let b = cmd == "bgen";
+                        let opline =
+                            if c.is_done() { None } else { Some(format!("{} {}", if b { "b" } else { "op" }, c.gen_op(r, st))) };
+                        queue.push_front(format!("{cmd} {}", n - 1));
+                        if let Some(l) = opline {
+                            queue.push_front(l);
+                        }
+                    }
+                }
+            }
+            "op" | "b" | "done" | "bdone" => {
+                let Some(c) = coll.as_mut() else { continue };
+                let is_done_cmd = cmd == "done" || cmd == "bdone";
+                let res = if is_done_cmd {
+                    c.mark_done();
+                    let _ = writeln!(out, "op done");
+                    Ok(())
+                } else {
+                    match catch_unwind(AssertUnwindSafe(|| c.exec(rest))) {
+                        Ok(text) => {
+                            let _ = writeln!(out, "cmd {cmd} {text}");
+                            let _ = writeln!(out, "op {text}");
+                            Ok(())
+                        }
+                        Err(_) => {
+                            let _ = writeln!(out, "cmd {cmd} {rest}");
+                            let _ = writeln!(out, "op {rest}");
+                            Err(())
+                        }
+                    }
+                };
+                let _ = writeln!(out, "res {}", if res.is_ok() { "ok" } else { "panic" });
+                st.hit(if cmd.starts_with('b') { "c14_burst_ops" } else { "c14_single_ops" });
+                dirty = true;
+                if cmd == "op" || cmd == "done" {
+                    sync::<C>(&coll, &mut probe, st, out).await;
+                    dirty = false;
+                }
+            }
+            "read" => {
+                let w: Vec<&str> = rest.split(' ').collect();
+                let s: usize = w[0].parse().unwrap();
+                let n: usize = w[1].parse().unwrap();
+                if let Some((_, Holder::Hand(sub, _))) = holders.iter_mut().find(|(x, _)| *x == s) {
+                    for _ in 0..n {
+                        let e = recv_or_pending::<C>(sub).await;
+                        let _ = writeln!(out, "recv {s} {e}");
+                        if e == "pending" || e == "eof" {
+                            break;
+                        }
+                    }
+                    settle().await;
+                }
+            }
+            "borrow" => {
+                let s: usize = rest.parse().unwrap();
+                if let Some((_, Holder::Mirror(m))) = holders.iter().find(|(x, _)| *x == s) {
+                    match C::borrow(m).await {
+                        Ok((c, complete, done)) => {
+                            let _ = writeln!(out, "borrow {s} {c} complete={} done={} err=-", complete as u8, done as u8);
+                        }
+                        Err(e) => {
+                            let _ = writeln!(out, "borrow {s} ? complete=? done=? err={e}");
+                        }
+                    }
+                }
+            }
+            "drop" => {
+                if coll.take().is_some() {
+                    let _ = writeln!(out, "dropped");
+                    st.hit("c14_drop");
+                    sync::<C>(&coll, &mut probe, st, out).await;
+                }
+            }
+            "cut" => {
+                if let Some(l) = link.as_mut() {
+                    l.cut();
+                    let _ = writeln!(out, "cutdone");
+                    st.hit("c14_cut");
+                    settle().await;
+                }
+            }
+            other => panic!("harness: bad c14 script line {other}"),
+        }
+    }
+    if dirty {
+        sync::<C>(&coll, &mut probe, st, out).await;
+    }
+    settle().await;
+    // final reads: everything that can still be received, then the mirrors
+    for (sid, h) in holders.iter_mut() {
+        if let Holder::Hand(sub, _) = h {
+            let mut n = 0;
+            loop {
+                let e = recv_or_pending::<C>(sub).await;
+                let _ = writeln!(out, "recv {sid} {e}");
+                n += 1;
+                if e == "pending" || e == "eof" || n > 100_000 {
+                    break;
+                }
+                // an error other than Lagged ends the subscription
+                if e.starts_with("err:") && e != "err:Lagged" {
+                    break;
+                }
+            }
+        }
+    }
+    settle().await;
+    let mut lines: Vec<String> = Vec::new();
+    let mut mirrors: Vec<(usize, C::Mirror)> = Vec::new();
+    for (sid, h) in holders {
+        if let Holder::Mirror(m) = h {
+            match C::borrow(&m).await {
+                Ok((c, complete, done)) => {
+                    lines.push(format!("borrow {sid} {c} complete={} done={} err=-", complete as u8, done as u8))
+                }
+                Err(e) => lines.push(format!("borrow {sid} ? complete=? done=? err={e}")),
+            }
+            mirrors.push((sid, m));
+        }
+    }
+    for (sid, m) in mirrors {
+        lines.push(format!("final {sid} {}", C::detach(m).await));
+    }
+    for l in lines {
+        let _ = writeln!(out, "{l}");
+    }
+    if let Some(mut l) = link {
+        l.cut();
+    }
+    let _ = writeln!(out, "end");
+}
+
+/// A generated C14 script.  `fault_at`: position (in script steps) of the drop / cut, for sweeps.
+fn gen_c14_script<C: Coll>(r: &mut Rng, kind: u64, fault_at: Option<usize>) -> Vec<String> {
+    let mut s = vec![format!("init {}", C::gen_init(r))];
+    let n_subs = r.range(1, 4) as usize;
+    let mut hands = Vec::new();
+    let mut mirrors = Vec::new();
+    for i in 0..n_subs {
+        let mirror = r.chance(3, 5);
+        let remote = match kind {
+            2 => true, // cut scenarios: everything remote
+            _ => r.chance(1, 3),
+        };
+        let buf = match r.below(5) {
+            0 => 1,
+            1 => 2,
+            2 => 3,
+            3 => 4,
+            _ => 1000,
+        };
+        let max = match kind {
+            1 => r.range(1, 8),
+            _ => {
+                if r.chance(1, 5) {
+                    r.range(1, 8)
+                } else {
+                    1000
+                }
+            }
+        };
+        s.push(format!(
+            "sub {} {} {} buf={buf} max={max}",
+            if r.bool() { "snap" } else { "incr" },
+            if remote { "remote" } else { "local" },
+            if mirror { "mirror" } else { "hand" }
+        ));
+        if mirror { mirrors.push(i) } else { hands.push(i) }
+    }
+    let steps = r.range(3, 14) as usize;
+    let fault_pos = fault_at.unwrap_or_else(|| r.below(steps as u64 + 1) as usize);
+    let fault = match kind {
+        0 => None,                                      // lag only
+        1 => None,                                      // size limits
+        2 => Some("cut"),
+        _ => Some("drop"),
+    };
+    let mut faulted = false;
+    for i in 0..steps {
+        if i == fault_pos {
+            if let Some(f) = fault {
+                s.push(f.to_string());
+                faulted = true;
+                if f == "drop" {
+                    break;
+                }
+            }
+        }
+        match r.below(10) {
+            0..=3 => s.push(format!("bgen {}", r.range(2, 7))),
+            4..=5 => s.push("gen 1".into()),
+            6..=7 if !hands.is_empty() => s.push(format!("read {} {}", r.pick(&hands), r.range(1, 4))),
+            8 if !mirrors.is_empty() => s.push(format!("borrow {}", r.pick(&mirrors))),
+            _ => s.push(format!("bgen {}", r.range(1, 3))),
+        }
+    }
+    if !faulted {
+        match fault {
+            Some(f) => s.push(f.to_string()),
+            None => {
+                if r.chance(2, 3) {
+                    s.push("done".into());
+                }
+                if r.chance(1, 4) {
+                    s.push("drop".into());
+                }
+            }
+        }
+    } else if fault == Some("cut") && r.chance(1, 2) {
+        s.push("done".into());
+    }
+    s
+}
+
+fn run_case_c14(coll: &str, id: &str, script: &[String], r: &mut Rng, st: &mut Stats) -> String {
+    let rt = tokio::runtime::Builder::new_current_thread().enable_time().start_paused(true).build().unwrap();
+    let mut out = String::new();
+    let res = catch_unwind(AssertUnwindSafe(|| {
+        rt.block_on(async {
+            match coll {
+                "vec" => run_c14::<CVec>(id, script, r, st, &mut out).await,
+                "deque" => run_c14::<CDeque>(id, script, r, st, &mut out).await,
+                "map" => run_c14::<CMap>(id, script, r, st, &mut out).await,
+                "set" => run_c14::<CSet>(id, script, r, st, &mut out).await,
+                "list" => run_c14::<CList>(id, script, r, st, &mut out).await,
+                other => panic!("harness: unknown collection {other}"),
+            }
+        })
+    }));
+    if res.is_err() {
+        let _ = writeln!(out, "crash harness-or-library-panic");
+        let _ = writeln!(out, "end");
+    }
+    out
+}
+
+fn gen_script_c14(coll: &str, r: &mut Rng, kind: u64, fault_at: Option<usize>) -> Vec<String> {
+    match coll {
+        "vec" => gen_c14_script::<CVec>(r, kind, fault_at),
+        "deque" => gen_c14_script::<CDeque>(r, kind, fault_at),
+        "map" => gen_c14_script::<CMap>(r, kind, fault_at),
+        "set" => gen_c14_script::<CSet>(r, kind, fault_at),
+        _ => gen_c14_script::<CList>(r, kind, fault_at),
+    }
+}
+
 const COLLS: [&str; 5] = ["vec", "deque", "map", "set", "list"];
 
 fn gen_script(coll: &str, r: &mut Rng) -> Vec<String> {
@@ -1581,6 +1952,42 @@ fn main() {
                 let mut r = rng.fork();
                 let name = std::path::Path::new(f).file_name().unwrap().to_string_lossy().to_string();
                 let text = run_case_c13(&coll, &name, &script, &mut r, &mut st);
+                w.write_all(text.as_bytes()).unwrap();
+            }
+        }
+        (Some("c14"), Some("gen")) => {
+            PURE_RETAIN.store(true, std::sync::atomic::Ordering::Relaxed);
+            let n: u64 = args[3].parse().unwrap();
+            let kinds = ["lag", "maxsize", "cut", "drop"];
+            for i in 0..n {
+                for coll in COLLS {
+                    let kind = [0u64, 1, 2, 0, 1, 3][(i % 6) as usize];
+                    let base = rng.fork();
+                    if (kind == 2 || kind == 3) && (i / 6) % 2 == 0 {
+                        // sweep: the same scenario with the fault at every position
+                        for pos in 0..15usize {
+                            let mut r = base.clone();
+                            let script = gen_script_c14(coll, &mut r, kind, Some(pos));
+                            let text = run_case_c14(coll, &format!("{coll}-{i}-{}{pos}", kinds[kind as usize]), &script, &mut r, &mut st);
+                            w.write_all(text.as_bytes()).unwrap();
+                            st.hit(&format!("c14_cases_{}_{coll}", kinds[kind as usize]));
+                        }
+                    } else {
+                        let mut r = base.clone();
+                        let script = gen_script_c14(coll, &mut r, kind, None);
+                        let text = run_case_c14(coll, &format!("{coll}-{i}-{}", kinds[kind as usize]), &script, &mut r, &mut st);
+                        w.write_all(text.as_bytes()).unwrap();
+                        st.hit(&format!("c14_cases_{}_{coll}", kinds[kind as usize]));
+                    }
+                }
+            }
+        }
+        (Some("c14"), Some("run")) => {
+            for f in &args[3..] {
+                let (coll, script) = read_script(f);
+                let mut r = rng.fork();
+                let name = std::path::Path::new(f).file_name().unwrap().to_string_lossy().to_string();
+                let text = run_case_c14(&coll, &name, &script, &mut r, &mut st);
                 w.write_all(text.as_bytes()).unwrap();
             }
         }
